@@ -208,3 +208,37 @@ Proof.
 Qed.
 
 End RunSpec.
+
+(** ** the class of inputs on which the bag path fails (known finding C01): the source was a
+    concurrent iterator advanced by [k >= 1] elements and something is left.  For every such run,
+    whatever the workers did, the first slot of the bag is never written and the unwrap panics. *)
+Section Advanced.
+Variable pe : nat -> list (event Z).
+
+Lemma lookup_below (l : list (nat * Z)) i : (forall x, In x l -> i < fst x) -> lookup l i = [].
+Proof.
+  induction l as [|[j v] r IH]; intros H; [reflexivity|]. cbn [lookup].
+  pose proof (H (j, v) (or_introl eq_refl)) as Hj. cbn [fst] in Hj.
+  destruct (Nat.eqb_spec j i); [lia|]. apply IH. intros x Hx. apply H. right. exact Hx.
+Qed.
+
+Theorem advanced_bag_panics k old n wl : 0 < k -> 0 < n -> res_map_col_adv pe k old n wl = None.
+Proof.
+  intros Hk Hn. unfold res_map_col_adv.
+  destruct (length (flat_map (w_writes pe (length old + k)) wl) =? n); [|reflexivity].
+  destruct n as [|n']; [lia|]. cbn [read_bag].
+  rewrite lookup_below; [reflexivity|].
+  intros x Hx. apply in_flat_map in Hx. destruct Hx as (w & _ & Hx).
+  unfold w_writes in Hx. apply in_flat_map in Hx. destruct Hx as (i & _ & Hx).
+  apply in_map_iff in Hx. destruct Hx as (v & <- & _). cbn [fst]. lia.
+Qed.
+
+(** consequently [finish] of a map-only ordered collect over such a source is a panic *)
+Corollary advanced_map_collect_panics k n wl : 0 < k -> 0 < n ->
+  finish TCollectVec pe n KMap k wl = RPanic /\ finish TCollectSplit pe n KMap k wl = RPanic /\
+  forall tg old, finish (TCollectInto tg old) pe n KMap k wl = RPanic.
+Proof.
+  intros Hk Hn. cbn [finish]. rewrite !advanced_bag_panics; auto.
+  repeat split. intros tg old. rewrite advanced_bag_panics; auto.
+Qed.
+End Advanced.
